@@ -28,10 +28,12 @@ COV = (L @ L.T) * np.outer([10, 10, 10, 0.01, 0.01, 0.01], [10, 10, 10, 0.01, 0.
 station = create_station("VfCcsds", (43.604482, 1.443962, 172.0))
 
 
-def covframe(cfg, sv):
+def covframe(cfg, sv, k=0):
     c = cfg["cov"]
     if c == "none":
         return None
+    if c == "mixed":       # successive covariances of one message in different frames: local, own frame, other local, ...
+        return ["QSW", sv.frame, "TNW", sv.frame, "QSW"][k % 5]
     return {"same": sv.frame, "QSW": "QSW", "TNW": "TNW", "other": "TOD" if sv.frame.name != "TOD" else "MOD"}[c]
 
 
@@ -73,7 +75,7 @@ def build(cfg):
             pts = []
             for k in range(cfg["npoints"]):
                 p = mk_state(cfg, k + 20 * e)
-                cf = covframe(cfg, p)
+                cf = covframe(cfg, p, k)
                 if cf is not None and (cfg["ncov"] == "all" or (cfg["ncov"] == "one" and k == 0)):
                     p.cov = Cov(p, COV * (k + 1), cf)
                 pts.append(p)
